@@ -215,6 +215,7 @@ func cmdCheck(args []string) int {
 		return inconclusive(id, tier, seed, start, "cannot load/compile /repo with the harness overlay: "+err.Error())
 	}
 	prog.Known = knownActive
+	sym.Profile = os.Getenv("VERIF_PROFILE") != ""
 	loadSec := time.Since(t0).Seconds()
 	if verbose {
 		fmt.Fprintf(os.Stderr, "loaded and built SSA in %.1fs\n", loadSec)
@@ -274,6 +275,22 @@ func cmdCheck(args []string) int {
 			continue
 		}
 		hr.res = res
+		if os.Getenv("VERIF_PROFILE") != "" {
+			type kv struct {
+				k string
+				v int
+			}
+			var l []kv
+			for k, v := range sym.ProfileQueries {
+				l = append(l, kv{k, v})
+			}
+			sort.Slice(l, func(i, j int) bool { return l[i].v > l[j].v })
+			for i, e := range l {
+				if i < 40 {
+					fmt.Fprintf(os.Stderr, "  profile %7d %s\n", e.v, e.k)
+				}
+			}
+		}
 		if verbose {
 			st := res.Stats
 			fmt.Fprintf(os.Stderr, "%s: paths=%d completed=%d pruned=%d asserts=%d sym=%d discharged=%d findings=%d inconcl=%d feasQ=%d oblQ=%d solver=%.1fs wall=%.1fs maxsteps=%d\n",
